@@ -1060,8 +1060,15 @@ static void reset_case(void)
     g_nops = 0;
     memset(g_xs, 0, sizeof(g_xs));
     memset(g_units, 0, sizeof(g_units));
-    /* every case starts with the key-id counter of a fresh process */
-    ABTD_atomic_relaxed_store_uint32(&g_key_id, ABTI_KEY_ID_END_);
+    /* every case starts with the key-id counter of a fresh process: the value key.c itself starts from (sampled
+     * before the first case), not a constant of this harness */
+    static int have_init;
+    static uint32_t init_id;
+    if (!have_init) {
+        init_id = ABTD_atomic_relaxed_load_uint32(&g_key_id);
+        have_init = 1;
+    }
+    ABTD_atomic_relaxed_store_uint32(&g_key_id, init_id);
 }
 
 #if defined(__SANITIZE_ADDRESS__)
